@@ -188,7 +188,8 @@ def driver(lib, plans_by_func, headers, prefix, namer, extra_main=""):
     STRUCT_PREFIX[0] = prefix
     out = [C_PRELUDE] + ['#include "%s"' % h for h in headers] + ["int main(void) {"]
     if "class" in lib.needs():
-        out += ["  %sCls zz_obj11, zz_obj22;" % prefix, "  %sCls_ctor(11, &zz_obj11);" % prefix, "  %sCls_ctor(22, &zz_obj22);" % prefix]
+        ctor = namer("ctor", "", scope="Cls_")
+        out += ["  %sCls zz_obj11, zz_obj22;" % prefix, "  %s(11, &zz_obj11);" % ctor, "  %s(22, &zz_obj22);" % ctor]
     exp_recv, exp_obs = [], []
     for f in lib.funcs:
         if not supported(f):
